@@ -66,7 +66,7 @@ def _mc_all(ctx, mcs):
         res.append({k: r[k] for k in ('name', 'states', 'distinct', 'wall_s', 'ok')})
     return res, viol, infra
 
-def api_runner(spec_workloads, mcs=(), tv_spec='TV_API', binary='api_drv', variant='rel', rule='', assumptions=(), keyfn=None):
+def api_runner(spec_workloads, mcs=(), tv_spec='TV_API', binary='api_drv', variant='rel', rule='', assumptions=(), keyfn=None, tag='tv'):
     """spec_workloads: tier -> list of (workload, nexec, len, shards)"""
     def run(ctx):
         bdir = ctx['build'](variant, [binary])
@@ -80,7 +80,7 @@ def api_runner(spec_workloads, mcs=(), tv_spec='TV_API', binary='api_drv', varia
         traces = _drive(ctx, bdir, binary, jobs)
         ctx['log']('drivers: %d trace files in %.0fs' % (len(traces), time.time() - t0))
         t0 = time.time()
-        s = ctx['validate_traces'](tv_spec, traces)
+        s = ctx['validate_traces'](tv_spec, traces, tag=tag)
         ctx['log']('TV: %d events validated in %.0fs, %d violations, %d known, %d infra' % (s['events'], time.time() - t0, len(s['violations']), len(s['known']), len(s['infra'])))
         nexe = ctx['count_executions'](traces)
         kf = keyfn or (lambda ev: (ev.get('a'), ev.get('name', ev.get('p', '')), ev.get('g', ev.get('r', {}).get('status') if isinstance(ev.get('r'), dict) else None)) if ev.get('a') not in ('Reset', 'create', 'destroy') else None)
@@ -222,3 +222,49 @@ def files_runner(sizes):
                 'assumptions': ['the literal grammar is enumerated over small digit alphabets (Literals.tla)', 'floating-point MPS values compare to 15 significant digits']}
     return run
 PLANS['C12'] = {'level': 'model_checking', 'tv_spec': 'TV_API', 'run': files_runner({'quick': [('files', 16, 6, 12)], 'thorough': [('files', 200, 8, 16)]})}
+
+def lu_runner(mode, sizes, env_extra=None, tag='tv'):
+    def run(ctx):
+        bdir = ctx['build']('rel', ['lu_drv'])
+        mcres, viol, infra = _mc_all(ctx, [dict(name='LUProtocol', cfg='MC_LUFactor.cfg', tla='MC_LUFactor.tla', workers=ctx['ncpu'], timeout=600)] if os.path.exists(os.path.join(ctx['verif'], 'spec', 'MC_LUFactor.tla')) else [])
+        nexec, ln, shards = sizes[ctx['tier']]
+        for k, v in (env_extra or {}).get(ctx['tier'], {}).items(): os.environ[k] = v
+        jobs = [((mode, ctx['seed'] * 100003 + sh * 7919 + 1, nexec, ln), os.path.join(ctx['rundir'], 'lu-%d.ndjson' % sh)) for sh in range(shards)]
+        traces = _drive(ctx, bdir, 'lu_drv', jobs)
+        s = ctx['validate_traces']('TV_LU', traces, tvenv={'LUMODE': mode}, tag=tag)
+        ctx['log']('TV: %d events validated, %d violations, %d known, %d infra' % (s['events'], len(s['violations']), len(s['known']), len(s['infra'])))
+        nexe = ctx['count_executions'](traces)
+        cov = {'states': sum(m['distinct'] for m in mcres) + s['events'], 'transitions': sum(m['states'] for m in mcres) + s['events'],
+               'traces_validated_against_impl': nexe, 'samples': _samples(traces), 'evaluations': s['events'],
+               'distinct_nontrivial': _distinct(traces, lambda ev: (ev.get('a'), ev.get('cols'), ev.get('b'), ev.get('col'), ev.get('variant')) if ev.get('a') not in ('Reset',) else None),
+               'rule': 'one evaluation = one load / solve / column replacement of the real factorization object checked exactly by TLC against LUFactor.tla; distinct = distinct (operation, matrix / right-hand side)',
+               'mc_models': mcres, 'tv_events': s['events'], 'executions': nexe, 'known_findings_hit': len(s['known']), 'exhaustive': False}
+        kn = sorted(set('%s: %s' % (k['id'], k['what']) for k in s['known']))
+        return {'coverage': cov, 'violations': viol + s['violations'], 'known': kn, 'infra': infra + s['infra'],
+                'assumptions': ['nonsingular test matrices are permuted strictly diagonally dominant (well conditioned by construction); singular ones are exactly singular',
+                                'residual bound 2^-26 (|M|max |x|_1 + |b|inf + 1) for the floating-point factorization, exact equality for the rational one']}
+    return run
+
+def combo_runner(*runs):
+    """several runners for one property: coverage numbers add up, lists are concatenated"""
+    def run(ctx):
+        out = None
+        for r in runs:
+            x = r(ctx)
+            if out is None:
+                out = x; continue
+            for k, v in x['coverage'].items():
+                o = out['coverage'].get(k)
+                if isinstance(v, bool): out['coverage'][k] = bool(o) and v
+                elif isinstance(v, (int, float)) and isinstance(o, (int, float)): out['coverage'][k] = o + v
+                elif isinstance(v, list) and isinstance(o, list): out['coverage'][k] = o + v
+                elif isinstance(v, str) and isinstance(o, str) and v != o: out['coverage'][k] = o + ' | ' + v
+                elif o is None: out['coverage'][k] = v
+            for k in ('violations', 'known', 'infra'): out[k] = out[k] + x[k]
+            out['assumptions'] = out['assumptions'] + [a for a in x['assumptions'] if a not in out['assumptions']]
+        return out
+    return run
+PLANS['C10'] = {'level': 'model_checking', 'tv_spec': 'TV_LU', 'tv_env': {'LUMODE': 'real'}, 'run': lu_runner('real', {'quick': (30, 40, 16), 'thorough': (300, 60, 16)}, {'thorough': {'VERIF_LU_MAXDIM': '40'}})}
+PLANS['C11'] = {'level': 'model_checking', 'tv_spec': 'TV_LU', 'tv_env': {'LUMODE': 'rational'},
+                'run': combo_runner(lu_runner('rational', {'quick': (20, 8, 16), 'thorough': (200, 10, 16)}, {'thorough': {'VERIF_LU_MAXDIM': '20', 'VERIF_LU_BITS': '200'}}, tag='lu'),
+                                    api_runner({'quick': [('binvq', 12, 30, 16)], 'thorough': [('binvq', 150, 40, 16)]}, tag='binvq'))}
